@@ -297,7 +297,7 @@ def generate(rng, k, tier="quick"):
             ops.append({"op": "MOVE_PAIR", "a": b, "b": c, "v": X.ser(v)})
             ops.append({"op": "CHECK_NEAR", "a": b, "b": c})
         elif r < 0.76:
-            ops.append({"op": "CHECK_FAR", "kind": rng.choice(["Point", "Vector"]), "c": X.ser(tuple(F(rng.randint(-24, 24), 8) for _ in range(3))), "coord": rng.randrange(3), "sign": rng.choice([-1, 1])})
+            ops.append({"op": "CHECK_FAR", "kind": rng.choice(["Point", "Vector"]), "c": X.ser(tuple(F(rng.randint(-64, 64), 8) for _ in range(3))), "coord": rng.randrange(3), "sign": rng.choice([-1, 1]), "mult": rng.choice(["9/2", "5", "5", "8", "100"]), "others": [rng.choice([-1, 0, 0, 1]) for _ in range(3)]})
         elif r < 0.84:
             ops.append({"op": "BATTERY"})
         elif r < 0.92:
@@ -742,7 +742,10 @@ def _check_far(ctx, step, G, M, op):
         return
     c = X.vec(op["c"])
     d = list(c)
-    d[op["coord"]] = d[op["coord"]] + op["sign"] * 5 * M.eps
+    # one coordinate differs by more than 4 eps (4.5 .. 100 eps), the others by at most eps/1000
+    for i, sg in enumerate(op.get("others", [0, 0, 0])):
+        d[i] = d[i] + sg * M.eps / 1000
+    d[op["coord"]] = c[op["coord"]] + op["sign"] * F(op.get("mult", "5")) * M.eps
     cls = G.Point if op["kind"] == "Point" else G.Vector
     p, q = cls(*[float(x) for x in c]), cls(*[float(x) for x in d])
     r1, r2 = call(lambda a, b: a == b, p, q), call(lambda a, b: a == b, q, p)
